@@ -71,7 +71,10 @@ class Lock:
         return self
 
     async def __aexit__(self, exc_type, exc_val, exc_tb):
-        assert exc_type is GeneratorExit or self._owner == __USIM_STATE__.loop.activity
+        # Only a regular exit is certain to be run by the owner itself. An exception
+        # may unwind the owner while *another* activity closes it: the GeneratorExit
+        # of a close, or whatever inner blocks raise in response to being closed.
+        assert exc_type is not None or self._owner == __USIM_STATE__.loop.activity
         self._depth -= 1
         if self._depth == 0:
             self.__release__()
